@@ -82,8 +82,8 @@ fn make_trains(rng: &mut Rng, shape: &[usize], slots: usize) -> Option<Vec<Train
         return None;
     }
     for (i, nf) in shape.iter().enumerate() {
-        // ids distinct modulo the slot count
-        let id = (i + slots * rng.below(256 / slots)) as u8;
+        // ids distinct modulo the slot count (with one slot per id, the extreme ids are used)
+        let id = if slots >= 256 { [0u8, 255, 254, 1, 128][i % 5] } else { (i + slots * rng.below(256 / slots)) as u8 };
         let plen = *nf * 6 + rng.below(12);
         let pdu = rng.bytes(plen);
         let label = gen_label(rng, [0usize, 2, 4, 3][i % 4]);
@@ -130,7 +130,7 @@ impl Property for Prop {
         "C07"
     }
     fn rule(&self) -> &'static str {
-        "merges: for each shape (fragments per PDU: 2x2, 2x3, 3x3, 2x4, 2x5, 3x4, 4x4, 5x5, 3x3x3, 2x3x4, 2x2x2x2, 2x2x3; thorough adds 4x4x4, 3x3x3x3, 5x5x2x2, 4x5x5, 2x2x2x3) trains are built by the real encapsulator on fragment ids distinct modulo the slot count (each shape on memories of 4, 3, 6 and 5 slots) and EVERY order-preserving merge is decapsulated on a fresh receiver (key = shape x memory size x 8 parts of the merge index space); the result stream restricted to each train must equal that train decapsulated alone, with exactly one delivery per PDU at its own end fragment. strays: for every merge of the small shapes one stray packet is inserted at EVERY position from {intermediate / end of an unknown id in an empty slot, intermediate / end of an id aliasing an open slot (id +/- slots), complete packet (accepted), complete packet with no storage left (rejected), end fragment with a bad CRC for a finished id}. restart: a new first fragment on the same id restarts only that id. sampled: random merges of 4x5 with 0..3 strays. Evaluations = decap calls; non-trivial = a merge in which at least two trains were really interleaved; fingerprint = hash(shape, merge order, stray)."
+        "merges: for each shape (fragments per PDU: 2x2, 2x3, 3x3, 2x4, 2x5, 3x4, 4x4, 5x5, 3x3x3, 2x3x4, 2x2x2x2, 2x2x3; thorough adds 4x4x4, 3x3x3x3, 5x5x2x2, 4x5x5, 2x2x2x3) trains are built by the real encapsulator on fragment ids distinct modulo the slot count (each shape on memories of 4, 3, 6 and 5 slots) and EVERY order-preserving merge is decapsulated on a fresh receiver (key = shape x memory size x 8 parts of the merge index space); the result stream restricted to each train must equal that train decapsulated alone, with exactly one delivery per PDU at its own end fragment. strays: for every merge of the small shapes one stray packet is inserted at EVERY position from {intermediate / end of an unknown id in an empty slot, intermediate / end of an id aliasing an open slot (id +/- slots), complete packet (accepted), complete packet with no storage left (rejected), end fragment with a bad CRC for a finished id}. restart: a new first fragment on the same id restarts only that id. sampled: random merges of 4x5 with an aliasing stray on memories of 4..7 and 256 slots (ids 0, 255, 254, 1 there). reuse-strays: all merges of 2x2, 2x3, 3x3, 2x2x2 where every PDU carries the same label and the re-use-enabled encapsulator is driven in the merge order (substituted first fragments), with a stray intermediate / end packet of an unknown or aliasing id at every position; reference = the same stream without the stray. Evaluations = decap calls; non-trivial = a merge in which at least two trains were really interleaved; fingerprint = hash(shape, merge order, stray)."
     }
     fn gens(&self, cx: &Cx) -> Vec<Gen> {
         let s = shapes(cx).len() as u64;
@@ -139,6 +139,7 @@ impl Property for Prop {
             Gen { name: "strays", count: 6 * SLOTV * PARTS, exhaustive: true },
             Gen { name: "restart", count: cx.n(2_000, 100_000), exhaustive: false },
             Gen { name: "sampled", count: cx.n(10_000, 1_000_000), exhaustive: false },
+            Gen { name: "reuse-strays", count: 4 * 2 * PARTS, exhaustive: true },
         ]
     }
     fn run_key(&self, cx: &Cx, gen: &str, key: u64, rep: &mut Report) {
@@ -148,17 +149,17 @@ impl Property for Prop {
         // key layout for merges / strays: ((shape * SLOTV) + slot variant) * PARTS + part
         let slots = match gen {
             "merges" | "strays" => SLOT_VARIANTS[((key / PARTS) % SLOTV) as usize],
-            "sampled" => [4usize, 5, 6, 7][(key % 4) as usize],
+            "sampled" => [4usize, 5, 6, 7, 256][(key % 5) as usize],
             _ => [4usize, 3, 6, 5, 2, 8][(key % 6) as usize],
         };
         let table = MandTable::none();
         // the alone-reference of a train: outcomes when decapsulated alone on a fresh receiver
         let alone = |t: &TrainT| -> Vec<String> {
-            let mut d = plain_dec(slots, 64, slots + 2, 64, MandTable::none());
+            let mut d = plain_dec(slots, 64, (slots + 2).min(10), 64, MandTable::none());
             t.pkts.iter().map(|p| outcome(&dec_guard(&mut d, p))).collect()
         };
         let run_merge = |trains: &[TrainT], refs: &[Vec<String>], order: &[usize], stray: Option<(usize, &Vec<u8>, &str)>, rep: &mut Report| -> bool {
-            let mut d = plain_dec(slots, 64, slots + 2, 64, table.clone());
+            let mut d = plain_dec(slots, 64, (slots + 2).min(10), 64, table.clone());
             let mut next = vec![0usize; trains.len()];
             let mut delivered = vec![0usize; trains.len()];
             let mut pos = 0usize;
@@ -286,6 +287,133 @@ impl Property for Prop {
                     rep.sample(|| format!("merges: shape {:?}, ids {:?}: {} order-preserving merges in total, all deliver each PDU exactly once, intact", shape, used, idx));
                 }
             }
+            "reuse-strays" => {
+                // all PDUs carry the SAME label and the sender's re-use is on: the encapsulator is driven in the
+                // merge order, so that substituted first fragments follow the packet that carries the label.
+                // A stray intermediate / end packet of another id must not change anything (the reference is
+                // the same stream without the stray).
+                let shape: Vec<usize> = [vec![2usize, 2], vec![2, 3], vec![3, 3], vec![2, 2, 2]][(key / PARTS / 2) as usize].clone();
+                let slots = [4usize, 3][((key / PARTS) % 2) as usize];
+                let part = key % PARTS;
+                let mut rng = Rng::derive(cx.seed, fnv(b"reuse-strays"), key / PARTS);
+                let lk = if (key / PARTS) % 2 == 0 { 0 } else { 2 };
+                let label = gen_label(&mut rng, lk);
+                let ll = label_bytes(&label).len();
+                let ids: Vec<u8> = (0..shape.len()).map(|i| (i + slots * rng.below(256 / slots)) as u8).collect();
+                let pdus: Vec<Vec<u8>> = shape.iter().map(|nf| { let n = nf * 16 + rng.below(8); rng.bytes(n) }).collect();
+                let total: usize = shape.iter().sum();
+                let empty_slot_id = (0..=255u8).find(|i| !ids.iter().any(|u| (*u as usize) % slots == (*i as usize) % slots));
+                let alias = alias_id(ids[0], slots, &ids, part as usize);
+                let mut strays: Vec<(Vec<u8>, &str)> = Vec::new();
+                if let Some(e) = empty_slot_id {
+                    strays.push((mk_inter(e, b"stray"), "intermediate-unknown-id"));
+                    strays.push((mk_end(e, b"stray", 0x0BAD_C0DE), "end-unknown-id"));
+                }
+                if let Some(a) = alias {
+                    strays.push((mk_inter(a, b"alias"), "intermediate-aliasing-id"));
+                    strays.push((mk_end(a, b"alias", 0x0BAD_C0DE), "end-aliasing-id"));
+                }
+                let mut counts = shape.clone();
+                let mut cur = Vec::new();
+                let mut idx = 0u64;
+                let mut f = |order: &[usize]| {
+                    // build the stream with the real encapsulator in this order
+                    let mut enc = Encapsulator::new(DefaultCrc {});
+                    let mut ctxs: Vec<Option<dvb_gse_rust::gse_encap::ContextFrag>> = vec![None; shape.len()];
+                    let mut sent = vec![0usize; shape.len()];
+                    let mut stream: Vec<(usize, Vec<u8>)> = Vec::new();
+                    for &t in order {
+                        let k = sent[t];
+                        sent[t] += 1;
+                        let per = (pdus[t].len() / shape[t]).max(1);
+                        let mut buf = vec![0u8; 4097];
+                        let r = if k == 0 {
+                            // the label may or may not be substituted: offer room for the full label
+                            let b = 7 + ll + per;
+                            crate::mon::guard(|| enc.encap(&pdus[t], ids[t], EncapMetadata::new(0x0800 + t as u16, label), &mut buf[..b]))
+                        } else {
+                            let c = match ctxs[t] {
+                                Some(c) => c,
+                                None => {
+                                    rep.count("c07.reuse.train-shape-lost");
+                                    return;
+                                }
+                            };
+                            let b = if k + 1 < shape[t] { 3 + per } else { 4097 };
+                            crate::mon::guard(|| enc.encap_frag(&pdus[t], &c, &mut buf[..b]))
+                        };
+                        match r {
+                            Ok(Ok(st)) => {
+                                let (n, c) = status_parts(&st);
+                                ctxs[t] = c;
+                                buf.truncate(n);
+                                stream.push((t, buf));
+                            }
+                            _ => {
+                                rep.count("c07.reuse.sender-failed");
+                                return;
+                            }
+                        }
+                    }
+                    if ctxs.iter().any(|c| c.is_some()) {
+                        rep.count("c07.reuse.train-not-finished");
+                        return;
+                    }
+                    let run = |stray: Option<(usize, &Vec<u8>)>, rep: &mut Report| -> Option<Vec<String>> {
+                        let mut d = plain_dec(slots, 64, slots + 2, 64, MandTable::none());
+                        let mut outs = Vec::new();
+                        for (i, (_, p)) in stream.iter().enumerate() {
+                            if let Some((at, sp)) = stray {
+                                if at == i {
+                                    rep.eval();
+                                    let r = dec_guard(&mut d, sp);
+                                    if r.is_err() {
+                                        return None;
+                                    }
+                                }
+                            }
+                            rep.eval();
+                            let r = dec_guard(&mut d, p);
+                            outs.push(outcome(&r));
+                            if let Ok(Ok((DecapStatus::CompletedPkt(b, _), _))) = r {
+                                let _ = d.provision_storage(b);
+                            }
+                        }
+                        Some(outs)
+                    };
+                    let reference = match run(None, rep) {
+                        Some(r) => r,
+                        None => return,
+                    };
+                    let delivered = reference.iter().filter(|o| o.starts_with("C(")).count();
+                    if delivered != shape.len() {
+                        // e.g. an order in which a substituted first fragment cannot be resolved: not judged
+                        rep.count("c07.reuse.reference-incomplete");
+                        return;
+                    }
+                    rep.count("c07.reuse.streams");
+                    for (sp, sname) in &strays {
+                        for at in 0..total {
+                            match run(Some((at, sp)), rep) {
+                                Some(o) if o == reference => {
+                                    rep.count("c07.reuse.stray-runs");
+                                }
+                                Some(o) => {
+                                    let i = (0..o.len()).find(|&i| o[i] != reference[i]).unwrap_or(0);
+                                    rep.violation("C07", format!("stray-changes-outcome:re-use-traffic:{}", sname), || format!("shape {:?} ids {:?} label {} merge order {:?}: with the stray {} ({}) inserted before packet {}, packet {} of the stream -> {} instead of {}", shape, ids, label_str(&label), order, sname, hex_short(sp, 24), at, i, o[i], reference[i]), &replay);
+                                    return;
+                                }
+                                None => {
+                                    rep.violation("C07", format!("stray-panics:re-use-traffic:{}", sname), || format!("stray {} panicked the receiver", sname), &replay);
+                                    return;
+                                }
+                            }
+                        }
+                    }
+                    rep.nontrivial(mix(mix(0x5E05E, key / PARTS), fnv(&order.iter().map(|x| *x as u8).collect::<Vec<_>>())));
+                };
+                merges(&mut counts, &mut cur, total, &mut idx, part, &mut f);
+            }
             "restart" => {
                 let mut rng = Rng::derive(cx.seed, fnv(gen.as_bytes()), key);
                 let shape = vec![3usize, 3];
@@ -304,7 +432,7 @@ impl Property for Prop {
                     p[2] = trains[0].id;
                 }
                 // CRC does not cover the frag id, so the train stays valid
-                let mut d = plain_dec(slots, 64, slots + 2, 64, table.clone());
+                let mut d = plain_dec(slots, 64, (slots + 2).min(10), 64, table.clone());
                 // feed: t0[0], t1[0], t0[1] (old), then restart: a[0], t1[1], a[1], a[2] -> delivered a; t1[2] -> delivered t1
                 let seq: Vec<(&Vec<u8>, &str)> = vec![(&trains[0].pkts[0], "F"), (&trains[1].pkts[0], "F"), (&trains[0].pkts[1], "F"), (&a.pkts[0], "F"), (&trains[1].pkts[1], "F"), (&a.pkts[1], "F"), (&a.pkts[2], "Ca"), (&trains[1].pkts[2], "C1")];
                 for (i, (p, want)) in seq.iter().enumerate() {
@@ -371,7 +499,7 @@ impl Property for Prop {
         }
     }
     fn floors(&self, _cx: &Cx, rep: &mut Report) {
-        for k in ["c07.merges", "c07.interleaved", "c07.stray-runs", "c07.restarts", "c07.sampled-ok"] {
+        for k in ["c07.merges", "c07.interleaved", "c07.stray-runs", "c07.restarts", "c07.sampled-ok", "c07.reuse.stray-runs"] {
             if rep.get(k) == 0 {
                 rep.floors_missing.push(format!("C07 floor: counter {} is 0", k));
             }
